@@ -45,8 +45,8 @@ struct JsonW {
         ArenaObj<VT> res;
         cx.parses++;
         if (has_long_exponent(text)) {
-            qsim::set_soft_budget(true);
-            qsim::probe("json.long-exponent-soft-budget");
+            qsim::set_stall_abandon(true);
+            qsim::probe("json.long-exponent");
         }
         if (variant == 1) {
             ArenaObj<Stm> stream;
@@ -100,6 +100,12 @@ struct JsonW {
                 if (toks.empty()) continue;
                 auto        tk   = toks[(size_t)(f.pos % toks.size())];
                 const char *form = forms[(size_t)(f.arg % (sizeof(forms) / sizeof(forms[0])))];
+                if (f.arg == 63 && (f.pos % 61) == 0) {
+                    // very rarely (each costs seconds of legitimate work): an exponent of ten or more digits
+                    static const char *longexp[] = {"1e1000000000", "-2.5E+12345678901", "7e-99999999999999999999", "3E4294967295"};
+                    form = longexp[(size_t)((f.pos / 61) % 4)];
+                    qsim::probe("json.fault.long-exponent");
+                }
                 U32         rep;
                 for (const char *p = form; *p; p++) rep.push_back((char32_t)*p);
                 text.replace(tk.first, tk.second - tk.first, rep);
